@@ -65,17 +65,107 @@ def ob(k):
                 bound=f"every brace-balanced argument of exactly {k} tokens (all 11 token kinds per position)")
 
 
+# ---------------------------------------------------------------- parse_delimited_argument (driver level)
+def delimited_obligation(k, d, closing):
+    """k tokens available on the stream, delimiter of d tokens, closing depth 0 (ordinary delimiter) or 1 (#{ form)."""
+    from mir2smt.execmir import Opaque
+
+    def build(sym, bind):
+        def kind(name):
+            if sym.consts is not None:
+                return I(sym.consts.get(name, 9))
+            v = tm.V(name)
+            sym.assumes.append(tm.and_(tm.le(I(0), v), tm.le(v, I(10))))
+            sym.vars[name] = "enum Value"
+            return v
+        kinds = [kind(f"kind{i}") for i in range(k)]
+        pk = kind("prefix_kind")
+        # one token from an earlier argument already sits in the shared result buffer
+        result = Ref(Cell(Agg([Agg([Enum(pk, {}, "Value"), I(1000)])])))
+        args = {"kinds": kinds, "prefix_kind": pk, "result": result, "consts": sym.consts}
+        vals = [Opaque("stream"), Ref(Cell(Opaque("matcher"))), I(1), result]
+        return args, vals
+
+    def env_start(ex, m, args, tys, st, fn, symargs):
+        return [(st, Opaque("search"))]
+
+    def env_substring(ex, m, args, tys, st, fn, symargs):
+        return [(st, Ref(Cell(Opaque("delimiter"))))]
+
+    def env_last(ex, m, args, tys, st, fn, symargs):
+        return [(st, Ref(Cell(Enum(I(BEGIN if closing == 1 else 9), {}, "Value"))))]
+
+    def env_nevec_len(ex, m, args, tys, st, fn, symargs):
+        return [(st, I(d))]
+
+    def env_next_token(ex, m, args, tys, st, fn, symargs):
+        i = sum(1 for e in st.log if e[0] == "token")
+        if i >= k:
+            st.log.append(("end_of_input",))
+            return [(st, Enum(1, {1: [Agg([])]}, "Result"))]
+        st.log.append(("token", i))
+        return [(st, Enum(0, {0: [Agg([Enum(symargs["kinds"][i], {}, "Value"), I(i)])]}, "Result"))]
+
+    def env_matcher_next(ex, m, args, tys, st, fn, symargs):
+        # the KMP matcher (decided under C20) is an oracle here: any answer after any token
+        i = sum(1 for e in st.log if e[0] == "match")
+        st.log.append(("match", i))
+        if i + 1 < d:
+            return [(st, tm.FALSE)]  # contract of the matcher: a d-token pattern cannot end before d tokens were seen
+        c = symargs.get("consts")
+        if c is not None:
+            return [(st, tm.B(bool(c.get(f"m{i}", 0))))]
+        return [(st, tm.V(f"m{i}", "B"))]
+
+    def post(a, ret, st):
+        consumed = sum(1 for e in st.log if e[0] == "token")
+        res = st.roots[3]
+        while isinstance(res, Ref):
+            res = res.cell.v
+        if ret.tag.val == 1:
+            # only the end of the input may end the scan without a match
+            return tm.B(st.log[-1] == ("end_of_input",) and consumed == k)
+        if consumed < d:
+            return tm.FALSE
+        n_arg = consumed - d
+        arg = a["kinds"][:n_arg]
+        # the shared buffer holds the earlier token, then exactly the argument (delimiter removed)
+        buf_ok = (len(res.fields) == 1 + n_arg and res.fields[0].fields[1] == I(1000)
+                  and all(res.fields[1 + j].fields[1] == I(j) for j in range(n_arg)))
+        if not buf_ok:
+            return tm.FALSE
+        trimmed = ret.pay[0][0]
+        want = spec_single_group(arg)
+        return tm.implies(balanced_prefixes(arg), tm.or_(tm.and_(trimmed, want), tm.and_(tm.not_(trimmed), tm.not_(want))))
+
+    return dict(engine="B", name=f"c02_delimited_argument_k{k}_d{d}_close{closing}", crates=["texlang"],
+                fn=("texlang", "parse_delimited_argument", "Parameter", None), args=[], build_args=build, unroll=k + 3,
+                env_models=[(r"^Matcher::<.*>::start$", env_start), (r"^Matcher::<.*>::substring$", env_substring),
+                            (r"^Nevec::<.*>::last$", env_last), (r"^Nevec::<.*>::len$", env_nevec_len),
+                            (r"^<(?:streams::)?UnexpandedStream<S> as (?:streams::)?TokenStream>::next_or_err::<.*>$", env_next_token),
+                            (r"^Search::<.*>::next$", env_matcher_next)],
+                post=post, post_state=True,
+                witnesses=[("a single braced group is the argument", lambda a: tm.and_(tm.eq(a["kinds"][0], I(BEGIN)), tm.eq(a["kinds"][k - d - 1], I(END)), tm.V(f"m{k - 1}", "B"),
+                                                                                 *[tm.not_(tm.V(f"m{i}", "B")) for i in range(k - 1)], tm.eq(a["prefix_kind"], I(9))))] if k - d >= 2 and closing == 0 else [],
+                funcs=["texlang::texmacro::Parameter::parse_delimited_argument (generic MIR; token stream, KMP matcher and Vec replaced by stubs/models; should_trim_outer_braces_if_present inlined from the dump)"],
+                bound=(f"a stream of {k} tokens of arbitrary kinds, a {d}-token delimiter ({'ending in {' if closing else 'ordinary'}), an arbitrary matcher answer after every token, one token of an "
+                       "earlier argument already in the shared buffer: the scan stops at the first match at the closing depth, removes exactly the delimiter, leaves the earlier token alone, and strips braces iff the argument alone is a single group"),
+                assumes=["the KMP matcher is an oracle (any answer sequence, except that a d-token delimiter cannot match before d tokens were read); that it answers correctly is decided under C20"])
+
+
 PROP = {
     "title": "Macro parameters: one pair of outer braces is removed only from a single group",
     "level_text": (
-        "Only one clause of the property is decided: 'one pair of outer braces is removed only when the whole argument is a single group' "
+        "Two pieces are decided. (1) The scan of a delimited argument (parse_delimited_argument from MIR with the token stream and the KMP matcher stubbed): stops at the first "
+        "delimiter match at the closing depth, removes exactly the delimiter, touches nothing before the argument. (2) 'one pair of outer braces is removed only when the whole argument is a single group' "
         "(TeX.2021.393), for every balanced argument of up to 6 tokens. Delimiter matching, undelimited arguments, #n substitution, ## and "
         "'the tokens after the call are untouched' run on VM token streams and are NOT decided."),
     "explanation": "Parameter::should_trim_outer_braces_if_present is executed from MIR on token slices of each length 1..6 with every token kind symbolic.",
     "outside": [
-        "Macro::call, parse_delimited_argument (KMP over the input stream), parse_undelimited_argument, perform_replacement, def.rs parameter-text parsing: VM-bound, NOT decided",
+        "Macro::call, parse_undelimited_argument, perform_replacement (#n substitution, ##), def.rs parameter-text parsing: VM-bound, NOT decided",
+        "parse_delimited_argument is decided at driver level only (stream and matcher stubbed, <= 5 tokens, delimiters of 1-2 tokens); 'shortest match' is as good as the matcher's answers (C20)",
         "arguments longer than 6 tokens",
     ],
     "assumptions": ["private function: the translator is not cross-checked natively for this obligation"],
-    "obligations": [ob(k) for k in (1, 2, 3, 4, 5, 6)],
+    "obligations": [ob(k) for k in (1, 2, 3, 4, 5, 6)] + [delimited_obligation(4, 1, 0), delimited_obligation(5, 2, 0), delimited_obligation(4, 1, 1)],
 }
